@@ -281,6 +281,13 @@ impl Network for SNet {
         let mut w = self.0.borrow_mut();
         let call = w.recv_calls;
         w.recv_calls += 1;
+        // time horizon: a run of n rounds ends within n x (max-round-duration + read timeout); one
+        // that is still receiving after twice that (plus a second) will never end
+        let rounds = w.cfg.strategy.max_rounds.map_or(1, |m| m.0.get()) as u64;
+        let per_round = w.cfg.strategy.max_round_duration.as_nanos() as u64 + 2 * T_NS + 600 * DELTA_NS;
+        if vclock::get() > w.start_ns + 2 * rounds * per_round + 1_000_000_000 {
+            return Err(Error::Other(format!("verif: the run has not ended {} ns after it started ({rounds} rounds of at most {} ns): it never will", vclock::get() - w.start_ns, per_round)));
+        }
         // scripted extra response (C07 separation clause / C03-style injections at strategy level)
         if let Some(&(_, seq)) = w.cfg.script.iter().find(|(k, _)| *k == call) {
             vclock::advance(DELTA_NS);
